@@ -19,7 +19,7 @@ type Decl struct {
 type Rule struct {
 	Pre   string `json:"pre,omitempty"` // selector list or at-rule prelude ("@page :first")
 	Decls []Decl `json:"d,omitempty"`
-	Rules []Rule `json:"r,omitempty"`  // nested rules (@media, @page margin boxes)
+	Rules []Rule `json:"r,omitempty"`   // nested rules (@media, @page margin boxes)
 	Raw   string `json:"raw,omitempty"` // broken rule text, used verbatim
 	NoBlk bool   `json:"nb,omitempty"`  // statement at-rule (@import ...;)
 }
